@@ -70,7 +70,16 @@ def min_count_zero_nanminmax_allnan(case, clause, detail):
     return bool(bad) and all(ok(k) for k in bad)
 
 
+def plan_blockwise_with_dask_labels(case, clause, detail):
+    """C19 cell records: the only unclean outcome is under method='blockwise' with chunked (dask) labels"""
+    if "clean" not in clause or not case.get("bydask"):
+        return False
+    bad = [o for o in case.get("outcomes", []) if o["kind"] not in ("ok", "ValueError", "NotImplementedError", "ImportError")]
+    return bool(bad) and all(o["method"] == "blockwise" for o in bad) and clause == "plan:clean"
+
+
 MATCHERS = {
+    "plan_blockwise_with_dask_labels": plan_blockwise_with_dask_labels,
     "min_count_zero_nanminmax_allnan": min_count_zero_nanminmax_allnan,
     "explicit_min_count_zero_absent_label": explicit_min_count_zero_absent_label,
     "blockwise_with_dask_labels": blockwise_with_dask_labels,
